@@ -6,12 +6,12 @@ outcome switches transport encryption on.
 
 Transcribed source (pinned tree):
 
-* pyatv/auth/hap_tlv8.py:84-106   `read_tlv`  (`readTlv`: same-tag values are concatenated;
+* pyatv/auth/hap_tlv8.py:77-100   `read_tlv`  (`readTlv`: same-tag values are concatenated;
                                    a tag byte without a length byte is an IndexError;
                                    a value shorter than its length byte is silently cut)
-* pyatv/auth/hap_tlv8.py:109-130  `write_tlv` (`writeTlv`: 255-byte chunks; an empty value
+* pyatv/auth/hap_tlv8.py:103-123  `write_tlv` (`writeTlv`: 255-byte chunks; an empty value
                                    produces nothing)
-* pyatv/auth/hap_srp.py:84-122    `SRPAuthHandler.verify1` (`verify1`), line by line:
+* pyatv/auth/hap_srp.py:84-124    `SRPAuthHandler.verify1` (`verify1`), line by line:
       X25519 exchange with the received session key  -> ValueError when the key is unusable
       hkdf_expand("Pair-Verify-Encrypt-Salt", "Pair-Verify-Encrypt-Info", shared)
       chacha.decrypt(encrypted, nonce="PV-Msg02")      -> InvalidTag
@@ -22,12 +22,12 @@ Transcribed source (pinned tree):
       Ed25519PublicKey.from_public_bytes(ltpk)          -> ValueError
       ltpk.verify(signature, info); InvalidSignature    -> AuthenticationError
       sign(own_pub + client_id + session_pub) with ltsk, write_tlv, encrypt nonce "PV-Msg03"
-* pyatv/auth/hap_srp.py:124-134   `SRPAuthHandler.verify2` (two hkdf_expand over the shared secret)
-* pyatv/protocols/mrp/auth.py:19-23, 96-121        `_get_pairing_data`, `MrpPairVerifyProcedure.verify_credentials`
-* pyatv/protocols/companion/auth.py:22-37, 135-166 `_get_pairing_data`, `CompanionPairVerifyProcedure.verify_credentials`
-* pyatv/protocols/airplay/auth/hap.py:29-33, 115-142 `_get_pairing_data`, `AirPlayHapPairVerifyProcedure.verify_credentials`
-* pyatv/support/__init__.py:66-75   `error_handler` (`errorHandler`)
-* pyatv/protocols/mrp/protocol.py:147 + 209-224        `start` / `_enable_encryption`
+* pyatv/auth/hap_srp.py:126-136   `SRPAuthHandler.verify2` (two hkdf_expand over the shared secret)
+* pyatv/protocols/mrp/auth.py:19-23, 94-116        `_get_pairing_data`, `MrpPairVerifyProcedure.verify_credentials`
+* pyatv/protocols/companion/auth.py:22-37, 132-164 `_get_pairing_data`, `CompanionPairVerifyProcedure.verify_credentials`
+* pyatv/protocols/airplay/auth/hap.py:28-32, 111-138 `_get_pairing_data`, `AirPlayHapPairVerifyProcedure.verify_credentials`
+* pyatv/support/__init__.py:68-77   `error_handler` (`errorHandler`)
+* pyatv/protocols/mrp/protocol.py:159 + 209-224        `start` / `_enable_encryption`
 * pyatv/protocols/companion/protocol.py:107 + 114-123  `start` / `_setup_encryption`
 * pyatv/protocols/airplay/auth/__init__.py:100-117     `verify_connection` (no error mapping)
 
